@@ -100,6 +100,7 @@ type loopRec struct {
 	headState *State // state after havoc+assume (for decreases / before())
 	measure   string
 	invs      []linv
+	entryState *State // state in which the loop was reached (before havoc)
 }
 
 type Exec struct {
@@ -137,6 +138,7 @@ type Exec struct {
 	iters     map[ssa.Value]*ssa.Range
 	speculating int
 	curLoop   *loopRec
+	subAddrIDs map[string]int
 	recBusy map[string]bool
 	exitHits map[string]int
 	inferN, inferQueries int
@@ -147,7 +149,7 @@ func NewExec(w *World, mode Mode) *Exec {
 	return &Exec{w: w, vc: NewVC(mode), mode: mode, heapSorts: map[string]*Sort{}, heapEntry: map[string]string{},
 		strConsts: map[string]string{}, closures: map[string]*closureRec{}, cellRefs: map[int]string{},
 		assumes: map[string]bool{}, occ: map[string]int{}, typeIDs: map[string]int{}, trusted: map[string]bool{}, inlined: map[string]bool{},
-		cellCaptured: map[int]bool{}, escaped: map[int]bool{}, fpBitsMemo: map[string]string{}}
+		cellCaptured: map[int]bool{}, escaped: map[int]bool{}, fpBitsMemo: map[string]string{}, subAddrIDs: map[string]int{}}
 }
 
 func (x *Exec) unsupported(f string, a ...interface{}) {
@@ -687,6 +689,24 @@ func (x *Exec) userInvariants(fr *Frame, l *loopRec) []linv {
 		}
 	}
 	out = append(out, x.frameInvariants(fr, l)...)
+	if x.lockset {
+		for _, wr := range []bool{true, false} {
+			wr := wr
+			nm := "heldR"
+			if wr {
+				nm = "heldW"
+			}
+			out = append(out, linv{name: "lock set unchanged by an iteration (" + nm + ")", kind: "auto", eval: func(st *State) (string, error) {
+				cur, _ := x.heldArr(st, wr)
+				ref := l.entryState
+				if ref == nil {
+					ref = fr.entry
+				}
+				old, _ := x.heldArr(ref, wr)
+				return eq(cur, old), nil
+			}})
+		}
+	}
 	if ra := rangeIndexAlloc(l); ra != nil {
 		if a, ok := fr.addrs[ra]; ok && a.K == AKCell {
 			out = append(out, linv{name: "rangeindex >= -1", kind: "auto", eval: func(st *State) (string, error) {
@@ -703,6 +723,7 @@ func (x *Exec) userInvariants(fr *Frame, l *loopRec) []linv {
 
 func (x *Exec) enterLoop(fr *Frame, l *loopRec, st *State) *State {
 	x.curState = st
+	l.entryState = st.clone()
 	name := fmt.Sprintf("loop%d", l.ordinal)
 	invs := x.userInvariants(fr, l)
 	for _, c := range invs {
